@@ -248,10 +248,18 @@ impl<'r> Gen<'r> {
                 };
                 let mut params = Vec::new();
                 if is_fun {
-                    for _ in 0..self.rng.range(1, 3) {
+                    // Half of the functions take their parameter names from one shared sequence, so that a
+                    // caller's parameter and a callee's parameter of the same name meet often.
+                    let shared = self.cfg.shadowing && self.rng.chance(1, 2);
+                    let np = self.rng.range(1, 3);
+                    for i in 0..np {
                         let pty = self.pick_param_ty();
-                        let taken = |s: &str| params.iter().any(|(n, _): &(String, Ty)| n == s);
-                        let pn = self.fresh_name(&taken);
+                        let pn = if shared {
+                            ["x", "y", "v"][i].to_owned()
+                        } else {
+                            let taken = |s: &str| params.iter().any(|(n, _): &(String, Ty)| n == s);
+                            self.fresh_name(&taken)
+                        };
                         params.push((pn, pty));
                     }
                 }
